@@ -219,6 +219,60 @@ class Subject:
         return out
 
 
+class quiet:
+    """the deprecation decorators of the library force their warnings through any filter: record them instead"""
+
+    def __enter__(self):
+        self._w = warnings.catch_warnings(record=True)
+        self._w.__enter__()
+        self._e = np.errstate(all="ignore")
+        self._e.__enter__()
+
+    def __exit__(self, *a):
+        self._e.__exit__(*a)
+        self._w.__exit__(*a)
+
+
+def build_subject(case):
+    """the subject of a case: the matrix (+ result) and the caller's own arrays, as live objects"""
+    import pandas as pd
+
+    import methods as M
+    import skcriteria as skc
+
+    d = case["dm"]
+    Mx = np.array(d["matrix"], dtype=float)
+    w = np.array(d["weights"], dtype=float)
+    if d["objdtype"] == "object-fn":
+        obj = np.array([max if o == 1 else min for o in d["objectives"]], dtype=object)
+    elif d["objdtype"] == "int":
+        obj = np.array(d["objectives"])
+    else:
+        obj = np.array(list(d["objectives"]), dtype=object)
+    alts, crits = list(d["alternatives"]), list(d["criteria"])
+    with quiet():
+        if d["ctor"] == "df":
+            idx, cols = pd.Index(alts), pd.Index(crits)
+            df = pd.DataFrame(Mx, index=idx, columns=cols)
+            args = {"df": df, "df_base": Mx, "df_index": idx, "df_columns": cols, "objectives": obj, "weights": w}
+            dm = skc.DecisionMatrix(df, obj, w)
+        elif d["ctor"] == "ndarray":
+            args = {"matrix": Mx, "objectives": obj, "weights": w}
+            dm = skc.DecisionMatrix(Mx, obj, w)
+        else:
+            a_arr = np.array(alts, dtype=object if isinstance(alts[0], str) else None)
+            c_arr = np.array(crits, dtype=object if isinstance(crits[0], str) else None)
+            args = {"matrix": Mx, "objectives": obj, "weights": w, "alternatives": a_arr, "criteria": c_arr}
+            dm = skc.mkdm(Mx, obj, weights=w, alternatives=a_arr, criteria=c_arr)
+        res = None
+        if case.get("res"):
+            try:
+                res = M.build(case["res"]).evaluate(dm)
+            except Exception:
+                res = None
+    return Subject(dm, args, res)
+
+
 # ----------------------------------------------------------------------------- mutation channels
 
 
@@ -588,3 +642,26 @@ def _is_cached(s, inst):
         if hits > h1:
             return True
     return False
+
+
+def classify_ctor(variants):
+    """constructor arguments that stay roots of the matrix: for every constructor variant (a case dict) and every
+    array / frame / Index object the caller handed over, write into it through every channel of its type and
+    see whether the matrix reports something else.  Returns [("<ctor>.<argument>", channel)]."""
+    watch = [c for c in CORE if not c[0].startswith("res.")]
+    kept = []
+    for case in variants:
+        names = sorted(build_subject(case).args)
+        for arg in names:
+            t, before = None, None
+            probe = build_subject(case)
+            for ch in sorted(channels(probe.args[arg])):
+                if t is None:
+                    t = build_subject(case)
+                    before = t.snapshot(watch)
+                if attempt(t.args[arg], ch, 0) is not None:
+                    continue
+                if t.snapshot(watch) != before:
+                    kept.append((f"{case['dm']['ctor']}.{arg}", ch))
+                    break
+    return kept
